@@ -25,8 +25,14 @@ theorem step_lim (L : Nat) (ins : Instr) (pc : Nat) (σ : St) :
       simp only [step]
       rw [if_neg (by simpa using h)]
       simp
-  | mapKey k t tgt => left; cases k <;> cases t <;> rfl
-  | unmarshalP t f =>
+  | mapKey k t tgt =>
+    left
+    cases k <;> cases t <;> first
+      | rfl
+      | (rename_i K E; cases K <;> first
+          | rfl
+          | (rename_i K'; cases K' <;> rfl))
+  | unmarshalP t f | unmarshal t f =>
     left
     cases t with
     | ptr t' => cases t' <;> rfl
@@ -118,6 +124,23 @@ theorem intKeyOp_stack {b : Bool} {w : Nat} {E : GoType} {tgt pc pc' : Nat} {s s
     | exact (skipKV_stack h).trans rfl
     | exact mapEntry_stack h
 
+theorem floatKeyOp_stack {K E : GoType} {tgt pc pc' : Nat} {s s' : St} (h : floatKeyOp o K E tgt pc s = .next pc' s') :
+    s'.stack = s.stack := by
+  unfold floatKeyOp at h
+  repeat' (split at h)
+  all_goals first
+    | (cases h; done)
+    | exact (skipKV_stack h).trans rfl
+    | exact mapEntry_stack h
+
+theorem textKeyOp_stack {n : String} {b : Bool} {E : GoType} {pc pc' : Nat} {s s' : St} (h : textKeyOp n b E pc s = .next pc' s') :
+    s'.stack = s.stack := by
+  unfold textKeyOp at h
+  repeat' (split at h)
+  all_goals first
+    | (cases h; done)
+    | exact mapEntry_stack h
+
 /-- no instruction takes a value stack of at most `L` slots beyond `L` -/
 theorem step_stack_le (L : Nat) (ins : Instr) (pc pc' : Nat) (σ σ' : St) (hs : σ.stack.length ≤ L)
     (h : step o (some L) ins pc σ = .next pc' σ') : σ'.stack.length ≤ L := by
@@ -162,8 +185,8 @@ theorem step_stack_le (L : Nat) (ins : Instr) (pc pc' : Nat) (σ σ' : St) (hs :
   | objectNext => simp only [step] at h; rw [skipTo_stack h]; exact hs
   | recurse t => simp only [step] at h; cases h
   | bin | emptyBytes | debug => cases h
-  | dyn t f | unmarshal t f | unmarshalText t f | unmarshalTextP t f => cases h
-  | unmarshalP t f =>
+  | dyn t f | unmarshalText t f | unmarshalTextP t f => cases h
+  | unmarshalP t f | unmarshal t f =>
     cases t with
     | ptr t' =>
       cases t' with
@@ -176,16 +199,35 @@ theorem step_stack_le (L : Nat) (ins : Instr) (pc pc' : Nat) (σ σ' : St) (hs :
       | _ => cases h
     | _ => cases h
   | mapKey k t tgt =>
-    cases k <;> try (cases h; done)
-    all_goals (cases t <;> try (cases h; done))
-    all_goals simp only [step] at h
-    all_goals first
-      | (rw [intKeyOp_stack h]; exact hs)
-      | skip
-    repeat' (split at h)
-    all_goals first
-      | (cases h; done)
-      | (injection h with _ h; rw [← h]; exact hs)
+    cases k with
+    | utext | utextP =>
+      cases t with
+      | map K E =>
+        cases K with
+        | lib n =>
+          first
+            | (cases h; done)
+            | (simp only [step] at h; rw [textKeyOp_stack h]; exact hs)
+        | ptr K' =>
+          cases K' with
+          | lib n =>
+            first
+              | (cases h; done)
+              | (simp only [step] at h; rw [textKeyOp_stack h]; exact hs)
+          | _ => cases h
+        | _ => cases h
+      | _ => cases h
+    | _ =>
+      cases t <;> try (cases h; done)
+      all_goals simp only [step] at h
+      all_goals first
+        | (rw [intKeyOp_stack h]; exact hs)
+        | (rw [floatKeyOp_stack h]; exact hs)
+        | skip
+      repeat' (split at h)
+      all_goals first
+        | (cases h; done)
+        | (injection h with _ h; rw [← h]; exact hs)
   | _ =>
     simp only [step] at h
     repeat' (split at h)
